@@ -23,8 +23,11 @@ LEVEL = "proof"
 PROPS = "PdshVerif.Props.C15"
 MANIFEST = dict(
     engine="hl",
-    technique="Lean 4 proof about the executable model of the hostlist parser (size limit of accepted ranges over "
-              "64-bit arithmetic, acceptance/refusal classes, totality) + differential correspondence of the real "
+    technique="Lean 4 proof about the executable model of the hostlist parser (for EVERY text: one equation for the "
+              "verdict on a range item with strtoul saturation, iff-characterisations of accepted / invalid / "
+              "too-many, refinement of the independent item reader, exact acceptance condition of a group, a token "
+              "and the whole call, counter exact and <= 16384 x text length, fuel sufficiency, explicit buffers) "
+              "+ differential correspondence of the real "
               "hostlist.c under ASan/UBSan and per-call resource limits against the compiled model + "
               "classification oracle from the property text",
     text="Theorems in lean/PdshVerif/Props/C15.lean about the parser model in lean/PdshVerif/Hostlist/Parse.lean; "
